@@ -94,8 +94,16 @@ def run(tier, seed, selftest=False, replay=None):
         ev = ev_common.run_ev(PID, ["instantiate"], tier, seed, verdict,
                               describe=lambda e: "instantiate %s tps=%s pre=%s -> %s" % (e["argdesc"], [p["n"] for p in e["tps"]], {k: show(v) for k, v in e["pre"].items()},
                                                                                      [show(a) for a in e["outs"][0]["args"]]))
+    scenes = (0, 0, None)
+    if not replay:
+        import ev_common as _evc
+        scenes = _evc.run_scenes(PID, tier, verdict)
     rc = verdict.finish()
     write_evidence(PID, tier, seed, "model_checking", {
+        "generator_scenes": {"scenes_executed": scenes[0], "events_judged": scenes[1], "sample": scenes[2], "informational": dict(_evc.INFO) if scenes[0] else {},
+                             "rule": "HGenScene: class Foo<..> with a (generic) method or field, Generator._get_matching_class on every wanted type; the "
+                                     "instantiate_type_constructor / _compute_type_variable_assignments calls it issues and the resulting receiver / method "
+                                     "instantiation are validated by HEvTrace"},
         "ev_generator_calls": {"programs": ev[0], "distinct_calls_judged": ev[1], "not_judgeable": ev[2]},
         "states": gstates[0] + sum(v.distinct for v in vals), "transitions": gstates[1] + sum(v.generated for v in vals),
         "traces_validated_against_impl": n_events,
